@@ -42,6 +42,7 @@ struct World {
 	void *pool = nullptr;
 	std::vector<std::vector<void *>> reserve;   // per thread: blocks the policy may free from inside unmap (re-entry)
 	bool reentrant = false;
+	uint64_t fail_mask = 0; unsigned failed_maps = 0;      // Policy::map ordinals that return 0 (fault plan)
 	void err(const char *fmt, ...) __attribute__((format(printf, 2, 3))) { if(!error.empty()) return; char b[300]; va_list ap; va_start(ap, fmt); vsnprintf(b, sizeof b, fmt, ap); va_end(ap); error = b; }
 };
 World *W = nullptr;
@@ -55,7 +56,8 @@ struct PolCore {
 	uintptr_t map_impl(size_t len, size_t align) {
 		dsched::point();                 // the policy is a place where other threads may run
 		dsched::Ignore ig;
-		W->map_calls++;
+		unsigned ordinal = W->map_calls++;
+		if((W->fail_mask >> (ordinal % 64)) & 1) { W->failed_maps++; return 0; }
 		if(dsched::sched_mutex::held_count()) W->err("Policy::map called while the calling thread holds %d pool lock(s)", dsched::sched_mutex::held_count());
 		uintptr_t a = (uintptr_t)arena_base() + W->bump;
 		a = (a + W->page - 1) & ~(uintptr_t)(W->page - 1);
@@ -112,6 +114,7 @@ void run(Ctx &c, int nb) {
 	w.pool = pool;
 	unsigned nthreads = 2 + t.pick(c.focus() == "C05" && config().tier == "thorough" ? 7 : 3);
 	w.reentrant = t.pick(3) == 0;
+	uint64_t fail_mask = t.pick(3) == 0 ? (t.next64() & t.next64() & t.next64()) : 0;     // ~1/8 of the map calls fail in a third of the cases
 	w.reserve.assign(nthreads, {});
 	size_t maxc = class_size(nb - 1);
 	static const size_t hot[] = {16, 64, 2048};
@@ -129,12 +132,13 @@ void run(Ctx &c, int nb) {
 		}
 	}
 	{ std::string s; for(unsigned k = 0; k < nthreads; k++) { s += " t" + std::to_string(k) + ":"; for(auto &o : scripts[k]) { static const char *nm[] = {"alloc", "alloc", "alloc", "free", "free", "realloc", "send", "recv"}; s += std::string(" ") + nm[o.kind] + "(" + std::to_string(o.size) + ")"; } }
-	  c.op("cfg %d, %u threads, template %u%s;%s", g_cfg, nthreads, tmpl, w.reentrant ? ", re-entrant policy" : "", s.c_str()); }
+	  c.op("cfg %d, %u threads, template %u%s%s;%s", g_cfg, nthreads, tmpl, w.reentrant ? ", re-entrant policy" : "", fail_mask ? ", map() fault plan" : "", s.c_str()); }
 	std::verif_atomic<void *> mail[4];
 	for(auto &m : mail) m.a.store(nullptr, std::memory_order_relaxed);
 	// sequential prelude: reserve blocks for the re-entrant policy
 	if(w.reentrant) for(unsigned k = 0; k < nthreads; k++) for(int i = 0; i < 2; i++) { inflight_small = true; inflight_class = class_of(24, nb); void *p = pool->allocate(24); inflight_small = false; inflight_class = -1; mapped_slab_for = -1; w.constructing.assign(nb, 0); w.reserve[k].push_back(p); w.live[(uintptr_t)p] = World::Live{24, pool->get_size(p), (int)k, 0}; }
 
+	w.fail_mask = fail_mask; w.map_calls = 0;
 	auto body = [&](unsigned k) {
 		std::vector<void *> mine;
 		auto check_new = [&](void *p, size_t req, uint32_t seed, const char *what) {
@@ -169,11 +173,19 @@ void run(Ctx &c, int nb) {
 			switch(o.kind) {
 			case 0: case 1: case 2: { int kl = class_of(o.size, nb); inflight_class = kl; inflight_small = kl >= 0; void *p = pool->allocate(o.size);
 				{ dsched::Ignore ig; if(mapped_slab_for >= 0) { w.constructing[mapped_slab_for]--; mapped_slab_for = -1; } }
-				inflight_class = -1; inflight_small = false; check_new(p, o.size, seed++, "allocate"); mine.push_back(p); break; }
+				inflight_class = -1; inflight_small = false;
+				if(!p) { dsched::Ignore ig; if(!w.failed_maps) w.err("allocate(%zu) returned null although no map() call failed", o.size); break; }
+				check_new(p, o.size, seed++, "allocate"); mine.push_back(p); break; }
 			case 3: case 4: if(!mine.empty()) { size_t i = o.arg % mine.size(); void *p = mine[i]; mine.erase(mine.begin() + i); auto l = verify_and_forget(p, "free"); if(o.kind == 3) pool->free(p); else pool->deallocate(p, l.req); } break;
-			case 5: if(!mine.empty()) { size_t i = o.arg % mine.size(); void *p = mine[i]; auto l = verify_and_forget(p, "realloc"); int kl = class_of(o.size ? o.size : 1, nb); inflight_class = kl; inflight_small = kl >= 0;
+			case 5: if(!mine.empty()) { size_t i = o.arg % mine.size(); void *p = mine[i]; World::Live before; { dsched::Ignore ig; before = w.live[(uintptr_t)p]; } auto l = verify_and_forget(p, "realloc"); int kl = class_of(o.size ? o.size : 1, nb); inflight_class = kl; inflight_small = kl >= 0;
 				void *q = pool->realloc(p, o.size ? o.size : 1); inflight_class = -1; inflight_small = false;
 				{ dsched::Ignore ig; if(mapped_slab_for >= 0) { w.constructing[mapped_slab_for]--; mapped_slab_for = -1; } }
+				if(!q) {   // map() failed: the old block must still be ours, untouched
+					{ dsched::Ignore ig; if(!w.failed_maps) w.err("realloc returned null although no map() call failed"); w.live[(uintptr_t)p] = before; }
+					size_t n0 = std::min<size_t>(before.rep, 256);
+					for(size_t j = 0; j < n0; j++) if(((unsigned char *)p)[j] != pat(before.seed, j)) { dsched::Ignore ig; w.err("realloc failed (map returned 0) and byte %zu of the old block changed", j); break; }
+					break;
+				}
 				size_t keep = std::min<size_t>(std::min(l.req, o.size ? o.size : 1), 256);
 				for(size_t j = 0; j < keep; j++) if(((unsigned char *)q)[j] != pat(l.seed, j)) { dsched::Ignore ig; w.err("realloc: byte %zu differs from the old contents", j); break; }
 				check_new(q, o.size ? o.size : 1, seed++, "realloc"); mine[i] = q; } break;
@@ -192,6 +204,8 @@ void run(Ctx &c, int nb) {
 	VCHECK(c, "C05", r.verdict.empty(), "the threads did not finish within %llu schedule points", (unsigned long long)r.steps);
 	VCHECK(c, "C05", w.error.empty(), "%s", w.error.c_str());
 	c.check_san("C05");
+	w.fail_mask = 0;
+	if(w.failed_maps) c.tag("map-failure-under-concurrency");
 	// quiescent consistency: free what is left in the mailboxes and the reserves, then compare the accounting
 	for(auto &m : mail) if(void *p = m.a.load()) { w.live.erase((uintptr_t)p); pool->free(p); }
 	for(auto &rv : w.reserve) for(void *p : rv) { w.live.erase((uintptr_t)p); pool->free(p); }
@@ -232,10 +246,10 @@ void verif_case(Ctx &c) {
 void verif_enum(Enum &e) {
 	uint64_t cap = e.tier == "thorough" ? 200000 : 4000;
 	struct Shape { std::vector<uint32_t> prefix; const char *name; };
-	// prefix: cfg, nthreads-2, reentrant, template, then per thread: n-1, (kind, sizepick, [size arg], arg)...
+	// prefix: cfg, nthreads-2, reentrant (1 = no), fault plan (1 = none), template, then per thread: n-1, (kind, sizepick, [size arg], arg)...
 	std::vector<Shape> shapes = {
-		{{0, 0, 1, 0, 1, 0, 3, 0, 0, 3, 0, 0, 1, 0, 3, 0, 0, 3, 0, 0}, "2 threads x (allocate 16; free) on one empty class"},
-		{{1, 0, 1, 1, 0, 3, 0, 0, 0, 3, 0, 0}, "2 threads start on the same empty largest class, then free"},
+		{{0, 0, 1, 1, 0, 1, 0, 3, 0, 0, 3, 0, 0, 1, 0, 3, 0, 0, 3, 0, 0}, "2 threads x (allocate 16; free) on one empty class"},
+		{{1, 0, 1, 1, 1, 0, 3, 0, 0, 0, 3, 0, 0}, "2 threads start on the same empty largest class, then free"},
 	};
 	for(auto &sh : shapes) {
 		std::vector<uint32_t> choices; bool more = true; uint64_t n = 0;
